@@ -17,18 +17,22 @@ struct Shared {
     cv: Condvar,
 }
 
-fn os_threads() -> usize {
-    std::fs::read_dir("/proc/self/task").map(|d| d.count()).unwrap_or(0)
+fn os_tids() -> std::collections::HashSet<String> {
+    std::fs::read_dir("/proc/self/task")
+        .map(|d| d.filter_map(|e| e.ok()).map(|e| e.file_name().to_string_lossy().to_string()).collect())
+        .unwrap_or_default()
 }
 
 pub fn run_case(f: &[&str]) -> String {
     let ops: Vec<&str> = f[1].split(',').collect();
-    let baseline = os_threads();
+    // threads of this process that exist before the pool does (they may exit while the case runs)
+    let baseline = os_tids();
+    let new_threads = |b: &std::collections::HashSet<String>| os_tids().iter().filter(|t| !b.contains(*t)).count();
     let pool = TaskPool::new();
     let sh = Arc::new(Shared { started: Mutex::new(Vec::new()), gen: Mutex::new(0), cv: Condvar::new() });
     let mut next_id = 0usize;
     let mut out = String::new();
-    let observe = |sh: &Arc<Shared>, pool: &TaskPool| -> String {
+    let observe = |sh: &Arc<Shared>, pool: &TaskPool, baseline: &std::collections::HashSet<String>| -> String {
         // wait until nothing changes for 100 ms (at most 3 s)
         let t0 = Instant::now();
         let mut last = (sh.started.lock().unwrap().len(), pool.verif_counters());
@@ -49,7 +53,7 @@ pub fn run_case(f: &[&str]) -> String {
         sorted.sort();
         sorted.dedup();
         let (t, w, a) = pool.verif_counters();
-        format!("[s={} t={} w={} a={} th={} dup={}]", st.len(), t, w, a, os_threads() as isize - baseline as isize, if sorted.len() != st.len() { 1 } else { 0 })
+        format!("[s={} t={} w={} a={} th={} dup={}]", st.len(), t, w, a, os_tids().iter().filter(|t| !baseline.contains(*t)).count(), if sorted.len() != st.len() { 1 } else { 0 })
     };
     for op in ops {
         if let Some(k) = op.strip_prefix('d') {
@@ -75,13 +79,18 @@ pub fn run_case(f: &[&str]) -> String {
             *sh.gen.lock().unwrap() += 1;
             sh.cv.notify_all();
         } else if op == "o" {
-            out.push_str(&observe(&sh, &pool));
+            out.push_str(&observe(&sh, &pool, &baseline));
         }
     }
     // let everything finish; dropping the pool makes idle workers retire
     *sh.gen.lock().unwrap() += 1000;
     sh.cv.notify_all();
     drop(pool);
+    // the workers retire now: wait for them, so that the next case starts from a clean thread count
+    let t0 = Instant::now();
+    while new_threads(&baseline) > 0 && t0.elapsed() < Duration::from_millis(3000) {
+        std::thread::sleep(Duration::from_millis(2));
+    }
     if out.is_empty() {
         out.push('-');
     }
